@@ -147,7 +147,7 @@ void oracle_bad_request(const Op& op) {
   const int kind = (int)op.a;
   const size_t n = (size_t)op.b;          // a small well-formed size used where one is needed
   Block* b = (op.slot >= 0 && op.slot < (int)H.slots.size()) ? H.slots[op.slot] : nullptr;
-  const bool needs_block = (kind >= 15 && kind <= 22) || (kind >= 30 && kind <= 33);
+  const bool needs_block = (kind >= 15 && kind <= 22) || (kind >= 30 && kind <= 33) || (kind >= 36 && kind <= 38);
   if (needs_block && !b) { H.ops_noop++; return; }
   mi_heap_t* dh = heap_ptr(T->deflt);
   size_t pages0 = 0; const size_t used0 = dh ? heap_used_sum(dh, &pages0) : 0;
@@ -192,6 +192,13 @@ void oracle_bad_request(const Op& op) {
     case 31: r = mi_realloc_aligned(p, n + 100, 3); break;                // not a power of two, below the word size
     case 32: r = mi_realloc_aligned_at(p, n + 100, 48, 8); break;
     case 33: r = mi_recalloc_aligned(p, n + 1, 2, 6); break;
+    // the smallest overflowing count for a power-of-two element size: count * size is exactly 2^64 (wraps to 0), for every split of the 64 bits
+    case 34: { const size_t sz = (size_t)1 << (1 + n % 63); r = mi_calloc(SIZE_MAX / sz + 1, sz); break; }
+    case 35: { const size_t sz = (size_t)1 << (1 + n % 63); r = mi_mallocn(SIZE_MAX / sz + 1, sz); break; }
+    case 36: { const size_t sz = (size_t)1 << (1 + n % 63); r = mi_reallocn(p, SIZE_MAX / sz + 1, sz); break; }
+    case 37: { const size_t sz = (size_t)1 << (1 + n % 63); r = mi_recalloc(p, SIZE_MAX / sz + 1, sz); break; }
+    case 38: { const size_t sz = (size_t)1 << (1 + n % 63); r = mi_reallocarray(p, SIZE_MAX / sz + 1, sz); if (r == nullptr && errno != ENOMEM) sim_violation("bad_request", "mi_reallocarray overflow (2^64): errno is %d, not ENOMEM", errno); break; }
+    case 39: { const size_t sz = (size_t)1 << (1 + n % 63); r = mi_calloc_aligned(SIZE_MAX / sz + 1, sz, 64); break; }
     default: H.ops_noop++; return;
   }
   (void)want_null;
